@@ -29,7 +29,7 @@ class Monitor(object):
         if k == "inf":
             return len(node.all_individuals)
         if k == "slotted":
-            return sum(1 for i in node.all_individuals if i.server)
+            return sum(1 for i in node.all_individuals if i.server and i.service_start_date is not False)
         return sum(1 for i in node.all_individuals if getattr(i, "with_server", False))
 
     def measure(self, node_id, how):
